@@ -222,7 +222,12 @@ def check_phase(dag, pname, method, pipelines, info, envs, split=None, mode=None
                 return "pipeline %s: %s is read before any statement sets it" % (pl, e.name)
             except astwalk.WalkError as e:
                 return "pipeline %s: %s" % (pl, e)
-            except (Inexact, RefError, T.EvalError, ZeroDivisionError, OverflowError, TypeError, AttributeError) as e:
+            except Inexact:
+                # not a failure of the rewritten program: a value it computes (e.g. a pure built-in hoisted out of an
+                # untaken branch) leaves the exactly representable domain, where this harness cannot follow
+                info["skip"] = "inexact in the rewritten tree"
+                break
+            except (RefError, T.EvalError, ZeroDivisionError, OverflowError, TypeError, AttributeError) as e:
                 return "pipeline %s: the rewritten tree fails with %s: %s (the original runs fine)" % (
                     pl, type(e).__name__, str(e)[:80])
             want = base[variant]
